@@ -706,4 +706,85 @@ example : exLineX.ssig1 ^ 2 + exLineX.csig1 ^ 2 = 1 ∧ ((1 : ℝ) ^ 2 + 0 ^ 2 =
 
 end ExactLine
 
+/-! ## Output ranges of the two line models -/
+
+section Ranges
+open GeoVerif.GeodLine GeoVerif.GeodLineX GeoVerif.Proofs.GeodLine GeoVerif.Proofs.GeodLineX
+
+/-- **`Math::atan2d` returns an angle in `[−180, 180]`** (model over ℝ), and in `[−90, 90]` when `x ≥ 0` -/
+theorem atan2d_range (y x : ℝ) : -180 ≤ (atan2d y x : ℝ) ∧ (atan2d y x : ℝ) ≤ 180 ∧ (0 ≤ x → -90 ≤ (atan2d y x : ℝ) ∧ (atan2d y x : ℝ) ≤ 90) := by
+  unfold atan2d
+  simp only [ltb_real, abs_real, signNeg_real, lit_real]
+  by_cases hsw : |x| < |y|
+  · -- swapped: x1 = y, y1 = x
+    simp only [hsw, decide_true, if_true]
+    by_cases hy : y < 0
+    · simp only [hy, decide_true, if_true]
+      obtain ⟨b, bp, bn⟩ := atan2_halfplane x (-y) (by linarith)
+      have hb := abs_le.mp (div_degree_bound _ b)
+      have hd := deg_pos
+      refine ⟨by push_cast; linarith [hb.1], by push_cast; linarith [hb.2], fun hx => ?_⟩
+      have : 0 ≤ RealLike.atan2 x (-y) / degree := div_nonneg (bp hx) hd.le
+      constructor <;> push_cast <;> linarith [hb.2]
+    · simp only [hy, decide_false, if_false, Bool.false_eq_true]
+      have hy' : 0 ≤ y := not_lt.mp hy
+      obtain ⟨b, bp, bn⟩ := atan2_halfplane x y hy'
+      have hb := abs_le.mp (div_degree_bound _ b)
+      have hd := deg_pos
+      refine ⟨by push_cast; linarith [hb.2], by push_cast; linarith [hb.1], fun hx => ?_⟩
+      have : 0 ≤ RealLike.atan2 x y / degree := div_nonneg (bp hx) hd.le
+      constructor <;> push_cast <;> linarith [hb.2]
+  · simp only [hsw, decide_false, if_false, Bool.false_eq_true]
+    by_cases hx : x < 0
+    · simp only [hx, decide_true, if_true]
+      obtain ⟨b, bp, bn⟩ := atan2_halfplane y (-x) (by linarith)
+      have hb := abs_le.mp (div_degree_bound _ b)
+      have hd := deg_pos
+      refine ⟨?_, ?_, fun h => absurd hx (not_lt.mpr h)⟩
+      · unfold copysign; rw [signNeg_real]
+        by_cases hy : y < 0
+        · have : RealLike.atan2 y (-x) / degree < 0 := div_neg_of_neg_of_pos (bn hy) hd
+          simp only [hy, decide_true, if_true, abs_real]; norm_num; linarith
+        · simp only [hy, decide_false, Bool.false_eq_true, if_false, abs_real]; norm_num; linarith [hb.2]
+      · unfold copysign; rw [signNeg_real]
+        by_cases hy : y < 0
+        · simp only [hy, decide_true, if_true, abs_real]; norm_num; linarith [hb.1]
+        · have : 0 ≤ RealLike.atan2 y (-x) / degree := div_nonneg (bp (not_lt.mp hy)) hd.le
+          simp only [hy, decide_false, Bool.false_eq_true, if_false, abs_real]; norm_num; linarith
+    · simp only [hx, decide_false, if_false, Bool.false_eq_true]
+      obtain ⟨b, _, _⟩ := atan2_halfplane y x (not_lt.mp hx)
+      have hb := abs_le.mp (div_degree_bound _ b)
+      exact ⟨by linarith [hb.1], by linarith [hb.2], fun _ => ⟨hb.1, hb.2⟩⟩
+
+/-- **ranges of the direct solution** (series line): for every line record, mode, length and kernel values, `azi2 ∈ [−180, 180]`; and
+    `lat2 ∈ [−90, 90]` when `f1 = 1 − f ≥ 0` and `tiny ≥ 0` (the second argument of `atan2d` is `f1·cos β2 ≥ 0`).  The returned longitude
+    without `LONG_UNROLL` is `AngNormalize(AngNormalize(lon1) + AngNormalize(lon12))`, whose range is C16's `angNormalize_spec`. -/
+theorem direct_ranges (L : Line ℝ) (arcmode : Bool) (s sk ck : ℝ) (un : Bool) :
+    let P := genPosition L arcmode s sk ck un
+    (-180 ≤ P.azi2 ∧ P.azi2 ≤ 180) ∧ (0 ≤ L.f1 → 0 ≤ L.tiny → -90 ≤ P.lat2 ∧ P.lat2 ≤ 90) := by
+  intro P
+  refine ⟨⟨(atan2d_range _ _).1, (atan2d_range _ _).2.1⟩, fun hf ht => ?_⟩
+  refine (atan2d_range _ _).2.2 (mul_nonneg hf ?_)
+  show 0 ≤ (if RealLike.eqb _ _ = true then L.tiny else RealLike.hypot _ _)
+  split_ifs
+  · exact ht
+  · rw [hypot_real]; exact Real.sqrt_nonneg _
+
+/-- **ranges of the direct solution** (exact line), for every kernel -/
+theorem xdirect_ranges (L : LineX ℝ) (K : Ell ℝ) (arcmode : Bool) (s sk ck : ℝ) (un : Bool) :
+    let P := genPositionX L K arcmode s sk ck un
+    (-180 ≤ P.azi2 ∧ P.azi2 ≤ 180) ∧ (0 ≤ L.f1 → 0 ≤ L.tiny → -90 ≤ P.lat2 ∧ P.lat2 ≤ 90) := by
+  intro P
+  refine ⟨⟨(atan2d_range _ _).1, (atan2d_range _ _).2.1⟩, fun hf ht => ?_⟩
+  refine (atan2d_range _ _).2.2 (mul_nonneg hf ?_)
+  show 0 ≤ (if RealLike.eqb _ _ = true then L.tiny else RealLike.hypot _ _)
+  split_ifs
+  · exact ht
+  · rw [hypot_real]; exact Real.sqrt_nonneg _
+
+example : (0 : ℝ) ≤ exLine.f1 ∧ (0 : ℝ) ≤ exLine.tiny ∧ (0 : ℝ) ≤ exLineX.f1 ∧ (0 : ℝ) ≤ exLineX.tiny := by
+  refine ⟨by simp [exLine], by simp [exLine], by simp [exLineX], by simp [exLineX]⟩
+
+end Ranges
+
 end GeoVerif.Props.C01
